@@ -73,9 +73,10 @@ func c04Check(in []byte) (nontrivial bool, class string, err error) {
 	}
 	oracle := "strconv.ParseFloat"
 	// The property is correct rounding of the exact decimal value. strconv is that, except
-	// on the literals ref.RiskyNumber describes; there (and on a quarter of the short
-	// literals, as a standing cross-check of strconv) exact rational arithmetic decides.
-	if ref.RiskyNumber(tok) || len(tok) <= 64 && core.Hash(tok)%4 == 0 {
+	// on the literals ref.RiskyNumber describes; there (and on a quarter of the literals
+	// of at most 64 bytes and a sixteenth of those of at most 4 KiB, as a standing cross-check
+	// of strconv) exact rational arithmetic decides.
+	if h := core.Hash(tok); ref.RiskyNumber(tok) || len(tok) <= 64 && h%4 == 0 || len(tok) <= 4096 && h%16 == 1 {
 		ef, eovf := ref.ExactFloat(tok)
 		if eovf != wantErr || !eovf && math.Float64bits(ef) != math.Float64bits(want) {
 			oracle = "exact rational rounding (strconv.ParseFloat differs)"
